@@ -779,3 +779,95 @@ pub fn probe_date(r: &mut Rng) -> NaiveDate {
         rand_date(r)
     }
 }
+
+
+// ------------------------------------------------------------------------------------------
+// Conformance of the whole pipeline model (bin/conform): raw hours at the site, at the substitute latitude and
+// on the neighbouring dates, plus the call under an arbitrary policy / interval / offset choice.
+
+pub fn gen_pipe(args: &Args) {
+    let seed = args.num("seed", 1) as u64;
+    session_start(seed);
+    let n = args.num("n", 6000);
+    let mut r = Rng::new(seed ^ 0x919E);
+    let mut w = TraceWriter::create(&args.str("out", "pipe.ndjson"));
+    let mut with_search = 0;
+    for i in 0..n {
+        let (mut site, date) = if i % 3 != 0 { twilight_edge_case(&mut r, 640_000) } else { (rand_site(&mut r, 640_000, 0), rand_date(&mut r)) };
+        site.gmt = natural_gmt(site.lon);
+        let mut p = P::of_method(r.range(1, 8) as usize);
+        if r.chance(1, 4) && p.ii == 0 {
+            custom_angles(&mut r, &mut p);
+        }
+        if r.chance(1, 6) {
+            p.fi = r.range(20, 120) * 60;
+        }
+        if r.chance(1, 8) {
+            p.ii = r.range(20, 120) * 60;
+        }
+        if r.chance(1, 4) {
+            p.imi = r.range(1, 40) * 60;
+        }
+        p.pol = r.range(0, 14) as usize;
+        p.nl = *r_pick(&mut r, &[485_000i64, -485_000, 300_000, 550_000, 600_000]);
+        if site.lat < 0 && r.chance(1, 2) {
+            p.nl = -p.nl.abs();
+        }
+        p.rnd = 0;
+        if r.chance(1, 3) {
+            for k in 0..7 {
+                p.off[k] = r.range(-1800, 1800);
+            }
+        }
+        let mut raw = p.raw();
+        raw.fi = 0;
+        raw.ii = 0;
+        raw.imi = 0;
+        raw.off = [0; 7];
+        let here = raw_call(&site, date, &raw);
+        let mut nl_site = site;
+        nl_site.lat = p.nl;
+        let nl = raw_call(&nl_site, date, &raw);
+        if !(here.ok() && nl.ok()) {
+            continue;
+        }
+        // the model works on clock times unwrapped around Dhuhr: keep to days where sunrise and sunset sit inside the civil day
+        let (sh, dh, mg) = (here.t[2], here.t[3], here.t[5]);
+        if sh >= 0 && mg >= 0 && !(sh < dh && dh < mg) {
+            continue;
+        }
+        let mut nb: Vec<Value> = vec![json!({"o": 0, "t": here.t})];
+        if p.pol == 5 || p.pol == 6 {
+            let good_b = |o: &Out| o.t[1] >= 0 && o.t[6] >= 0;
+            let good_i = |o: &Out| o.t[0] >= 0 && o.t[6] >= 0;
+            let (mut fb, mut fi) = (good_b(&here), good_i(&here));
+            let mut m = 0i64;
+            while !(fb && fi) && m < 366 {
+                m += 1;
+                let cm = raw_call(&site, date - chrono::Duration::days(m), &raw);
+                let cp = raw_call(&site, date + chrono::Duration::days(m), &raw);
+                if !(cm.ok() && cp.ok()) {
+                    break;
+                }
+                fb = fb || good_b(&cm) || good_b(&cp);
+                fi = fi || good_i(&cm) || good_i(&cp);
+                nb.push(json!({"o": -m, "t": cm.t}));
+                nb.push(json!({"o": m, "t": cp.t}));
+            }
+            if m > 0 {
+                with_search += 1;
+            }
+            if m >= 366 {
+                continue;
+            }
+        }
+        let b = call(&site, date, &p);
+        if !b.ok() {
+            continue;
+        }
+        w.emit(merge(&[base_event("pipe", &site, date, &p), json!({"here": here.t, "nl": nl.t, "nb": nb, "b": res_json(&b)})]));
+    }
+    let session = session_flush(&mut w);
+    let k = w.finish();
+    println!("{}", json!({"session": session, "events": k, "with_search": with_search}));
+}
